@@ -227,7 +227,8 @@ theorem result_exact (peers : List Nat) {par : Nat} (hp : 0 < par) (ops : List O
   have hl : Inv (reach peers par ops) ∧
       R (Machine.exec stepM (monInit peers par, init peers par) ops).1 (reach peers par ops) := by
     have := hl; unfold Linked at this; rwa [hs] at this
-  have hmem := fun q => mem_result_iff (reach peers par ops).peers hl.1.nodup q
+  have hmem : ∀ q, q ∈ result (reach peers par ops) ↔ pfind (reach peers par ops).peers q = some .succeeded :=
+    fun q => mem_result_iff (reach peers par ops).peers hl.1.nodup q
   refine ⟨?_, ?_, ?_⟩
   · intro q
     rw [hmem q, ← hl.2.accepted q, i2]
